@@ -1097,18 +1097,18 @@ def unpack_named_tuple(spec: ValueSpec) -> Expression:
         field_indices = zip((f"'{name}'" for name in fields), fields)
     else:
         field_indices = enumerate(fields)
-    if not defaults:
-        packed_value = spec.expression
-    else:
-        packed_value = "value"
+    indices = []
     for idx, field in field_indices:
         unpacker = UnpackerRegistry.get(
             spec.copy(
                 type=annotations.get(field, Any),
-                expression=f"{packed_value}[{idx}]",
+                expression=(
+                    "item" if defaults else f"{spec.expression}[{idx}]"
+                ),
                 could_be_none=True,
             )
         )
+        indices.append(idx)
         unpackers.append(unpacker)
 
     if not defaults:
@@ -1132,13 +1132,16 @@ def unpack_named_tuple(spec: ValueSpec) -> Expression:
         # we shouldn't be here because there will be default_kwargs
         lines.append(f"def {method_name}({method_args}):")
     with lines.indent():
-        lines.append("fields = []")
-        with lines.indent("try:"):
-            for unpacker in unpackers:
-                lines.append(f"fields.append({unpacker})")
-        with lines.indent("except IndexError:"):
-            lines.append("pass")
         field_type = spec.builder.get_type_name_identifier(spec.type)
+        lines.append("fields = []")
+        for idx, unpacker in zip(indices, unpackers):
+            # only a missing item selects the defaults, an IndexError
+            # raised while unpacking a present item must not be swallowed
+            with lines.indent("try:"):
+                lines.append(f"item = value[{idx}]")
+            with lines.indent("except IndexError:"):
+                lines.append(f"return {field_type}(*fields)")
+            lines.append(f"fields.append({unpacker})")
         lines.append(f"return {field_type}(*fields)")
     lines.append(
         f"setattr({spec.cls_attrs_name}, '{method_name}', {method_name})"
